@@ -192,6 +192,33 @@ impl Prop for C02T {
                 }
             }
         }
+        // ... lower / mixed case spellings and white space around parameter separators
+        for msg in msgs.iter_mut() {
+            for u in msg.units.iter_mut() {
+                if u.raw.is_some() {
+                    continue;
+                }
+                if rng.chance(1, 15) {
+                    let lower = rng.chance(1, 2);
+                    for mn in u.mnems.iter_mut() {
+                        *mn = mn.chars().map(|c| if lower || rng.chance(1, 2) { c.to_ascii_lowercase() } else { c }).collect();
+                    }
+                }
+                if u.args.len() >= 2 && rng.chance(1, 10) {
+                    let k = rng.below(u.args.len());
+                    let pad = *rng.pick(&[&b" "[..], b"  ", b"\t"]);
+                    let mut a = Vec::new();
+                    if k > 0 && rng.chance(1, 2) {
+                        a.extend_from_slice(pad);
+                    }
+                    a.extend_from_slice(&u.args[k]);
+                    if k + 1 < u.args.len() && rng.chance(1, 2) {
+                        a.extend_from_slice(pad);
+                    }
+                    u.args[k] = a;
+                }
+            }
+        }
         let need = need_n(&msgs).max(need_n(&rewrite(&msgs)));
         let ns: Vec<usize> = IFACES[iface].ns.iter().copied().filter(|&n| n >= need).collect();
         let n = if ns.is_empty() { *IFACES[iface].ns.last().unwrap() } else { ns[rng.below(ns.len().min(3))] };
